@@ -52,6 +52,17 @@ CHECKS = {
         note="Trusted: numpy SVD. Chains of 3-7 sites, bond <= 16, dense dimension <= 1024; tree states are covered by C11's compress checks.",
         technique="property-based testing (Hypothesis) against dense SVD bounds (theorems) and a dense differential replica",
     ),
+    "C07": dict(
+        category="exploration",
+        text="Generated (state program, operator pool, operator list, permutation) cases: expectation / transition amplitudes, the "
+             "batched cached-environment fast path vs the one-by-one path vs opt=False, permutation equivariance, electronic and "
+             "vibrational occupations (incl. the per-model operator cache on copies), one-/two-site and electronic RDMs, one-site, "
+             "two-site, mutual and bond entropies and bond singular values are all compared with values computed from the dense "
+             "state vector (or dense density operator for the MpDm form, incl. non-diagonal ones).",
+        design_ref="DESIGN.md §4 C07",
+        note="Trusted: numpy dense algebra/partial traces; harness dense operators from BasisSet.op_mat. 2-6 sites, dimension <= 256.",
+        technique="property-based testing (Hypothesis) with dense reference oracle + differential (fast vs slow path) + permutation metamorphic relation",
+    ),
     "C19": dict(
         category="exploration",
         text="Complete enumeration of the finite space (10 tableaux x rows x 17 rooted trees of order <=5, row sums, "
